@@ -141,6 +141,10 @@ def curated():
     # a pattern that starts with ^ and has a top-level alternation: every alternative is anchored at the current position
     add({"Root": [rule("^a|b"), rule("c"), rule("\\s+", True)]})
     add({"Root": [rule("\\Aa|c"), rule("(?m)^b|a"), rule("(?s).")]})
+    # a whole-input literal: ^lit$ / \Alit\z match only when nothing follows
+    add({"Root": [rule("^a$"), rule("\\Aab\\z"), rule("^b\\z"), rule("(?s).")]})
+    # a rule named like the end-of-input symbol is an ordinary rule with a type of its own
+    add({"Root": [named("EOF", "b"), rule("a", act="push", state="S1"), rule("(?s).")], "S1": [named("EOF", "b", "pop"), rule("a")]})
     return K
 
 
